@@ -246,6 +246,13 @@ pub fn gen_inputs(rng: &mut StdRng, n: usize, with_trailing: bool) -> Vec<Input>
         let mut d = f.serialize().bytes;
         d.extend_from_slice(&trailing);
         v.push(Input { fmt: Fmt::Xz, data: d, name: format!("xz/{}blocks+{}", f.blocks.len(), trailing.len()), payload_len: None });
+        if !with_trailing && i % 2 == 0 {
+            // index integers in a non-minimal encoding (self-consistent file): whatever the decoder thinks of them,
+            // it must think the same under every fragmentation (C13 only; C11 does not fix the verdict)
+            let mut g = f.clone();
+            g.varint_pad = 1 + i % 3;
+            v.push(Input { fmt: Fmt::Xz, data: g.serialize().bytes, name: format!("xz-noncanonical-index/{}blocks+0", g.blocks.len()), payload_len: None });
+        }
     }
     v
 }
